@@ -15,15 +15,16 @@ for name in sorted(os.listdir(d)):
     for c, v in m["checks"].items():
         if v["exit"] == 1:
             sigs.append(f"{c}: " + ", ".join(v["signatures"][:3]))
-    rows.append((name, m["property"], m.get("origin", "")[:40], m["needs_to_manifest"][:260].replace("|", "/"), "; ".join(sigs) or "NOT CAUGHT (quick tier)"))
+    rows.append((name, m["property"], m.get("first_run", ""), m["needs_to_manifest"][:260].replace("|", "/"), "; ".join(sigs) or "NOT CAUGHT (quick tier)"))
 with open(os.path.join(d, "README.md"), "w") as f:
     f.write("# Seeded changes (realistic breakage used to test the checks)\n\n")
     f.write("Each directory holds `patch.diff` (against /repo HEAD at the time, i.e. with all `fix:` commits), the author's `demo.py` "
             "(fails with the change, passes without), `notes.md` and `meta.json` (what was confirmed and which checks report it). "
             "None of these changes is ever committed to /repo; they are applied in a scratch worktree and the checks are pointed at it with `VERIF_REPO`.\n\n")
-    f.write("| id | property | needs to manifest | caught by (quick tier, VERIF_SEED=1): failure signatures |\n|---|---|---|---|\n")
-    for name, prop, origin, needs, sigs in rows:
-        f.write(f"| {name} | {prop} | {needs} | {sigs} |\n")
+    f.write("| id | property | needs to manifest | caught by (quick tier, VERIF_SEED=1): failure signatures | history |\n|---|---|---|---|---|\n")
+    for name, prop, first, needs, sigs in rows:
+        f.write(f"| {name} | {prop} | {needs} | {sigs} | {first or 'caught by the check as first built'} |\n")
     n_caught = sum(1 for r in rows if not r[4].startswith("NOT"))
-    f.write(f"\n{n_caught} of {len(rows)} changes are reported by the quick tier of the check for their property.\n")
+    n_first = sum(1 for r in rows if not r[2])
+    f.write(f"\n{n_caught} of {len(rows)} changes are reported by the quick tier of the check for their property; {n_first} of them were caught by the checks as first built, the others led to the strengthening noted in the last column.\n")
 print(len(rows), "seeded changes")
